@@ -1,10 +1,11 @@
 #!/bin/bash
-# usage: tools/verify_batch.sh C01 C04 ...   (verifies /tmp/seed/<P>_a_out/m{1,2,3})
+# usage: tools/verify_batch.sh <wave a|b|..> C01 C04 ...   (verifies /tmp/seed/<P>_<wave>_out/m{1,2,3})
+W=$1; shift
 mkdir -p /tmp/vs_logs
 for P in "$@"; do
   for k in 1 2 3; do
-    d=/tmp/seed/${P}_a_out/m$k
-    [ -d "$d" ] || continue
-    echo "$d ${P}_a_m$k"
+    d=/tmp/seed/${P}_${W}_out/m$k
+    [ -f "$d/patch.diff" ] || continue
+    echo "$d ${P}_${W}_m$k"
   done
-done | xargs -P 5 -L 1 bash -c 'python3 /verif/tools/verify_seed.py $0 $1 > /tmp/vs_logs/$1.log 2>&1; tail -4 /tmp/vs_logs/$1.log | head -1'
+done | xargs -P 5 -L 1 bash -c 'python3 /verif/tools/verify_seed.py $0 $1 > /tmp/vs_logs/$1.log 2>&1; grep -h "^{\"seed_id\"" /tmp/vs_logs/$1.log || tail -2 /tmp/vs_logs/$1.log'
